@@ -16,11 +16,11 @@ for mid in ids:
     res = {'id': mid}
     try:
         demo = open(d + '/demo_test.go').read()
-        m = re.search(r'(?:cop(?:y|ied) (?:it )?(?:in)?to|into)\s+`?((?:starlark|lib/\w+|internal/\w+|resolve|syntax|starlarkstruct)/?)`?', demo)
+        m = re.search(r'go test[^\n]*?\./((?:starlark|lib/\w+|internal/\w+|resolve|syntax|starlarkstruct))/?', demo)
         pkgdir = (m.group(1).rstrip('/') if m else 'starlark')
         mrun = re.search(r'-run\s+[\'"]?([A-Za-z0-9_|^$.*()]+)', demo)
         run = mrun.group(1) if mrun else '.'
-        race = '-race ' if '-race' in demo.split('package')[0] else ''
+        race = '-race ' if re.search(r'go test[^\n]*-race', demo) else ''
         res.update(pkgdir=pkgdir, run=run)
         shutil.copy(d + '/demo_test.go', os.path.join(wt, pkgdir, 'zz_seeded_demo_test.go'))
         democmd = 'go test %s-vet=off -count=1 -run %r ./%s/' % (race, run, pkgdir)
